@@ -277,7 +277,9 @@ class _ForwardSubst:
                 return False
             ev(stmt.value, stmt, 'value', None, False)
         elif isinstance(stmt, ast.Assign):
-            if not all(isinstance(t, ast.Name) for t in stmt.targets):
+            def pure_target(t):
+                return isinstance(t, ast.Name) or (isinstance(t, ast.Attribute) and pure_target(t.value))
+            if not all(pure_target(t) for t in stmt.targets) or any(isinstance(n, ast.Name) and n.id == name for t in stmt.targets for n in ast.walk(t)):
                 return False
             ev(stmt.value, stmt, 'value', None, False)
         return state['done']
@@ -415,6 +417,15 @@ class Module:
         for n in ast.walk(self.tree):
             if not isinstance(n, singletons):
                 n._module = self
+        # source-order position (pre-order index): line numbers are not an order after de-extraction
+        stack, i = [self.tree], 0
+        while stack:
+            n = stack.pop()
+            if isinstance(n, singletons):
+                continue
+            n._pos = i
+            i += 1
+            stack.extend(reversed(list(ast.iter_child_nodes(n))))
 
 
 class ClassInfo:
@@ -527,18 +538,19 @@ class FuncInfo:
 
 def own_nodes(fnode):
     """Walk a function body without descending into nested defs/lambdas/classes."""
-    stack = list(ast.iter_child_nodes(fnode))
+    # pre-order, in source order
+    stack = list(reversed(list(ast.iter_child_nodes(fnode))))
     while stack:
         n = stack.pop()
         yield n
         if isinstance(n, (ast.FunctionDef, ast.AsyncFunctionDef, ast.Lambda, ast.ClassDef)):
             continue
-        stack.extend(ast.iter_child_nodes(n))
+        stack.extend(reversed(list(ast.iter_child_nodes(n))))
 
 
 def own_calls(fnode):
     out = [n for n in own_nodes(fnode) if isinstance(n, ast.Call)]
-    out.sort(key=lambda c: (c.lineno, c.col_offset))
+    out.sort(key=lambda c: getattr(c, '_pos', 0))
     return out
 
 
